@@ -323,6 +323,8 @@ def run_program(prog, mode):
                 res = None
                 if mode == "none" and not lib_guard_broken and unheld_tail_text(root_el, handles):
                     lib_guard_broken = True
+                if mode == "none" and not guard_broken and not guard_ok(handles, doc):
+                    guard_broken = True          # the state the call starts from counts (collections fire inside it)
                 if handles:
                     h = handles[o["h"] % len(handles)]
                     try:
